@@ -25,21 +25,41 @@ SPEC = dict(
 )
 
 
-def altloc_variant(rnd, lines):
+# titratable residue types whose groups sit on an atom of the same name (CG): a point mutant between two of them
+# gives two different groups with one residue_label
+SAME_ANCHOR = {"ASP": ["HIS"], "HIS": ["ASP"]}
+ISOSTERIC = {"ASP": ("ASN", {"OD2": "ND2"}), "ASN": ("ASP", {"ND2": "OD2"}), "GLU": ("GLN", {"OE2": "NE2"}), "GLN": ("GLU", {"NE2": "OE2"})}
+
+
+def altloc_variant(rnd, lines, kind=None):
     """turn a single-conformation fragment into an alt-loc input"""
     items = pdbgen.split_residues(lines)
     res = [k for k, it in enumerate(items) if it[0] == "res" and it[2][0].startswith("ATOM")]
     tags = rnd.choice([("A", "B"), ("B", "C"), ("1", "2"), ("A", "B", "C")])
-    kind = rnd.randrange(4)
+    kind = rnd.randrange(5) if kind is None else kind
     picks = rnd.sample(res, min(len(res), rnd.randint(1, 3)))
+    iso = [k for k in res if items[k][1][3] in ISOSTERIC or items[k][1][3] in SAME_ANCHOR]
+    if kind == 4:
+        if not iso:
+            kind = 2
+        else:
+            picks = rnd.sample(iso, min(len(iso), rnd.randint(1, 2)))
+            for k in list(picks):
+                if items[k][1][3] in SAME_ANCHOR:
+                    # two titratable residue types at one position: the last alternate carries the grafted side chain
+                    g = pdbgen.graft_sidechain(rnd, items[k][2], rnd.choice(SAME_ANCHOR[items[k][1][3]]))
+                    picks.remove(k)
+                    if g is not None:
+                        items[k] = ("res", items[k][1], [pdbgen.setcols(l, 16, 17, tags[0]) for l in items[k][2]] +
+                                    [pdbgen.setcols(l, 16, 17, tags[-1]) for l in g])
     ion = [k for k in res if items[k][1][3] in ("ASP", "GLU", "HIS", "CYS", "TYR", "LYS", "ARG")]
-    if kind >= 2 and ion:
+    if kind in (2, 3) and ion:
         picks = rnd.sample(ion, min(len(ion), rnd.randint(1, 2)))
     for k in picks:
         new = []
         for l in items[k][2]:
             side = l[12:16].strip() not in ("N", "CA", "C", "O")
-            if kind == 0 or (kind == 1 and side) or kind >= 2:
+            if kind == 0 or (kind == 1 and side) or kind >= 2:   # kinds 2-4: the whole residue in every alternate
                 for j, t in enumerate(tags):
                     ll = pdbgen.setcols(l, 16, 17, t)
                     x, y, z = pdbgen.coords(ll)
@@ -49,6 +69,13 @@ def altloc_variant(rnd, lines):
                         if l[12:16].strip() not in ("N", "CA", "C", "O", "CB"):
                             continue
                         ll = pdbgen.setcols(ll, 17, 20, "ALA")
+                    if kind == 4 and j == len(tags) - 1:
+                        # isosteric point mutant (ASP<->ASN, GLU<->GLN): both residue types carry a group on the same atom name
+                        new_res, ren = ISOSTERIC[l[17:20]]
+                        ll = pdbgen.setcols(ll, 17, 20, new_res)
+                        nm = l[12:16].strip()
+                        if nm in ren:
+                            ll = pdbgen.setcols(pdbgen.setcols(ll, 12, 16, " %-3s" % ren[nm]), 76, 78, " " + ren[nm][0])
                     if kind == 3 and j == 0:
                         if l[12:16].strip() not in ("N", "CA", "C", "O", "CB"):
                             continue
@@ -87,13 +114,21 @@ def model_variant(rnd, lines, identical=False):
 def gen_inputs(ctx):
     rnd = ctx.rng
     out = [(n, t, "file") for n, t in pdbgen.test_files(["conf-alt-AB", "conf-alt-AB-mutant", "conf-alt-BC", "conf-model-missing-atoms", "conf-model-mutant"])]
+    # a protein-sized structure (buried groups, many determinants) with a few alternate locations
+    for n, t in pdbgen.test_files(["3SGB-subset"] if ctx.quick() else ["3SGB", "1HPX"]):
+        out.append((n + "-altloc", pdbgen.text(pdbgen.altloc_atoms(rnd, pdbgen.lines_of(t), rnd.randint(1, 3))), "altloc"))
     for i in range(14 if ctx.quick() else 150):
         lines = pdbgen.fragment(rnd, nres=rnd.randint(3, 9))
         lines = pdbgen.relabel(lines, chain="A")
         if rnd.random() < 0.6:
             lines = pdbgen.add_oxt(lines)
         if i % 3 == 0:
-            out.append(("alt%d" % i, pdbgen.text(altloc_variant(rnd, lines)), "altloc"))
+            kind = (i // 3) % 5          # every kind of alternate, the isosteric mutants included, in every tier
+            for _ in range(30):
+                if kind != 4 or any(l[17:20] in SAME_ANCHOR for l in lines):
+                    break
+                lines = pdbgen.relabel(pdbgen.fragment(rnd, nres=rnd.randint(3, 9)), chain="A")
+            out.append(("alt%d" % i, pdbgen.text(altloc_variant(rnd, lines, kind)), "altloc"))
         elif i % 3 == 1:
             out.append(("mod%d" % i, pdbgen.text(model_variant(rnd, lines)), "models"))
         else:
@@ -158,24 +193,24 @@ def topup_problems(text, mol, ignore):
     all_labels = {}
     for c, atoms in orig.items():
         for a in atoms:
-            all_labels.setdefault(a.residue_label, []).append((a.chain_id, a.res_num, a.res_name))
+            all_labels.setdefault(a.residue_label, []).append((a.chain_id, a.res_num, a.icode, a.res_name))
     for c in mol.conformation_names:
         conf = mol.conformations[c]
         heavy = [a for a in conf.atoms if a.element != 'H']
         have = {a.residue_label for a in heavy}
         own_names = {}
         for a in orig.get(c, []):
-            own_names.setdefault((a.chain_id, a.res_num), set()).add(a.res_name)
+            own_names.setdefault((a.chain_id, a.res_num, a.icode), set()).add(a.res_name)
         names = {}
         for a in heavy:
-            names.setdefault((a.chain_id, a.res_num), set()).add(a.res_name)
+            names.setdefault((a.chain_id, a.res_num, a.icode), set()).add(a.res_name)
         for key, s in names.items():
             if len(s) > 1 and len(own_names.get(key, set())) <= 1:
                 probs.append("conformation %s merges residue types %r at %r" % (c, sorted(s), key))
         for lab, occ in all_labels.items():
             if lab not in have:
                 # allowed only if the position holds a different residue name here
-                if not any(names.get((ch, num)) and rn not in names[(ch, num)] for ch, num, rn in occ):
+                if not any(names.get((ch, num, ic)) and rn not in names[(ch, num, ic)] for ch, num, ic, rn in occ):
                     probs.append("conformation %s lacks %r although the position is free" % (c, lab))
     req = "topup run " + "/".join(";".join("%s|%s|%d|%s|%s" % (hx(a.residue_label), hx(a.chain_id), a.res_num, hx(a.icode), hx(a.res_name)) for a in orig[c]) or "-" for c in mol.conformation_names)
     real = "/".join(";".join("%s|%s" % (hx(a.residue_label), hx(a.res_name)) for a in mol.conformations[c].atoms if a.element != 'H' or True) for c in mol.conformation_names)
@@ -207,7 +242,7 @@ def run(ctx):
             if d:
                 same_bad.append((name, d, multi))
             # a single conformation is reported as it is
-            if not o1.error:
+            if not o1.error and len(o1.mol.conformation_names) == 1:
                 only = o1.mol.conformation_names[0]
                 rep = [g for g in o1.confs[only] if g["use"]]
                 d = observe.compare_groups(rep, o1.confs['AVR'], tol=1e-9, dets=False)[:3]
